@@ -9,6 +9,7 @@ import Nsq.Model.ToFileMain
 import Nsq.Model.ToNsqLoop   -- relay sub-builder (C20 round 6): to_nsq main loop
 import Nsq.Model.RelayOpts   -- relay sub-builder (C20 round 6): option surface of nsq_to_http / nsq_to_nsq
 import Nsq.Model.RelayRedirect   -- tools2 (audit round 7, C3): nsq_to_http through the http.Client of main()
+import Nsq.Model.RelayAudit7 -- C20 audit round 7 (sub-builder c20b): n2n histories, to_nsq refusal, GET endpoint
 /-! Driver for engine E8 (tools): one operation per input line, one canonical answer line out.
 
 `tf …`  nsq_to_file router model (stateful: conf / pre / events / tree)
@@ -21,6 +22,7 @@ import Nsq.Model.RelayRedirect   -- tools2 (audit round 7, C3): nsq_to_http thro
 `lp …`  to_nsq main loop (throttle / EOF / Stop) under a given schedule      [relay block]
 `opt …` relay option surface: hdr / req / args / pass / wl / topic / hmark / nmark [relay block]
 `rd …`  nsq_to_http wire level: one message through HandleMessage + http.Client (redirects)  [tools2 block]
+`a7 …`  C20 audit round 7: n2n-hist / refuse / get                                  [audit7-b block]
 -/
 open Nsq Nsq.Line
 
@@ -200,6 +202,9 @@ def stepLine (d : E8.D) (line : String) : String × E8.D :=
   -- ---- tools2 block (audit round 7, C3) ----
   | "rd" :: _ => (Nsq.Model.RelayRedirect.driverLine (words line), d)
   -- ---- end of tools2 block ----
+  -- ---- audit7-b block (C20 audit round 7, sub-builder c20b) ----
+  | "a7" :: ws => (Nsq.Model.RelayAudit7.driverLine ws, d)
+  -- ---- end of audit7-b block ----
   | _ => ("bad-op", d)
 
 partial def loop (h : IO.FS.Stream) (out : IO.FS.Stream) (d : E8.D) : IO Unit := do
